@@ -131,11 +131,17 @@ func Disassemble(main *runtime.Function, globals []Global, n int) map[string][]b
 			packages = packages[:]
 		}
 
+		// Collect the functions in the order in which they have been
+		// discovered, not in map order, and sort them with a stable sort, so
+		// that functions declared at the same line are always disassembled
+		// in the same order.
 		functions := make([]*runtime.Function, 0, len(funcs))
-		for fn := range funcs {
-			functions = append(functions, fn)
+		for _, fn := range allFunctions {
+			if fn.Pkg == path {
+				functions = append(functions, fn)
+			}
 		}
-		sort.Slice(functions, func(i, j int) bool { return funcs[functions[i]] < funcs[functions[j]] })
+		sort.SliceStable(functions, func(i, j int) bool { return funcs[functions[i]] < funcs[functions[j]] })
 
 		for _, fn := range functions {
 			if fn.Macro {
